@@ -86,15 +86,6 @@ def generate(ck) -> bool:
             text += "\n"
         if T.read_literal(SER, "_QUANT_PARAMETER_TENSOR_NAMES_FIELD") != "quant_parameter_tensor_names":
             raise T.Unsupported("_QUANT_PARAMETER_TENSOR_NAMES_FIELD changed")
-        # behavioural switches: does this tree still have the recorded defects?  (true = repaired).
-        # The model carries both behaviours (flags fixA/fixB/fixD of Model2.v), wf excludes a site only while
-        # its flag is false, and the theorems are proved for every value of the flags.
-        fl = probe_fix_flags()
-        text += "(* probed on the implementation with the witnesses of the recorded findings *)\n"
-        for k, nm in (("function-input-value-info-dropped", "FIX_fn_input_vinfo"),
-                      ("quantization-annotation-duplicated", "FIX_quant_dup"),
-                      ("ref-graph-attr-crash", "FIX_refgraph")):
-            text += f"Definition {nm} : bool := {'true' if fl[k] else 'false'}.\n"
     except (T.Unsupported, SyntaxError, OSError) as e:
         ck.gen_failed("C02Gen", e)
         return False
@@ -303,14 +294,10 @@ def t_model(m) -> str:
               for c in m.configuration)]) + ")")
 
 
-FLAGS3 = "FIX_fn_input_vinfo FIX_quant_dup FIX_refgraph"
-
 KINDS = {
     # kind: (proto class name, term printer, Coq case type, Coq roundtrip, Coq norm, Coq eqb, Coq wf)
-    "model": ("ModelProto", t_model, "ModelP", f"(roundtrip_model {FLAGS3})", "norm_model", "model_eqb",
-              f"(wf_model {FLAGS3})"),
-    "graph": ("GraphProto", t_graph, "GraphP", "(roundtrip_graph FIX_quant_dup)", "norm_graph", "graph_eqb_top",
-              "(wf_graph FIX_quant_dup true true [])"),
+    "model": ("ModelProto", t_model, "ModelP", "roundtrip_model", "norm_model", "model_eqb", "wf_model"),
+    "graph": ("GraphProto", t_graph, "GraphP", "roundtrip_graph", "norm_graph", "graph_eqb_top", "(wf_graph true [])"),
     "tensor": ("TensorProto", t_tensor, "TensorP", "roundtrip_tensor", "norm_tensor", "tensor_eqb", "wf_tensor"),
     "vinfo": ("ValueInfoProto", t_vinfo, "VInfoP", "roundtrip_vinfo", "norm_vinfo", "vinfo_eqb", "wf_vinfo"),
 }
@@ -477,8 +464,6 @@ class Gen:
     def __init__(self, rng, hist=None):
         self.r = rng
         self.n = 0
-        self.refgraph_ok = True
-        self.fix = {}          # key of a recorded finding -> True when the tree is repaired
         self.hist = hist if hist is not None else {}
 
     def h(self, key):
@@ -633,8 +618,7 @@ class Gen:
             kinds = [k for k in kinds if "GRAPH" not in k]
         if in_function_attrs and self.chance(0.35):
             a.ref_attr_name = self.r.choice(in_function_attrs)
-            rk = kinds if self.refgraph_ok else [k for k in kinds if "GRAPH" not in k]   # known finding: crash
-            a.type = getattr(onnx.AttributeProto, self.r.choice(rk))
+            a.type = getattr(onnx.AttributeProto, self.r.choice(kinds))
             self.h("attr:ref")
             return
         k = self.r.choice(kinds)
@@ -810,9 +794,8 @@ class Gen:
         if self.chance(0.15):
             self.vinfo(g.value_info.add(), self.fresh("unref"))
             self.h("vinfo:unreferenced")
-        # quantization annotations (not on values that are both input/initializer and output: known finding)
-        qn = [n for n in declared + node_outs
-              if self.fix.get("quantization-annotation-duplicated") or not (n in outs and n in declared)]
+        # quantization annotations (also on pass-through values: fixed finding quantization-annotation-duplicated)
+        qn = declared + node_outs
         self.r.shuffle(qn)
         for nm in qn[: self.r.choice([0, 0, 1, 2])]:
             qa = g.quantization_annotation.add()
@@ -843,7 +826,7 @@ class Gen:
         for _ in range(self.r.randrange(0, 4)):
             outs += self.node(f.node.add(), ins + outs, 0, irv, fattrs=fattrs or None, confs=confs)
         if irv >= 10:
-            for nm in outs + (ins if self.fix.get("function-input-value-info-dropped") else []):
+            for nm in outs + ins:
                 if self.chance(0.4):
                     self.vinfo(f.value_info.add(), nm)
                     self.h("function:value_info")
@@ -877,9 +860,7 @@ class Gen:
             m.model_version = 0
         self.meta(m.metadata_props, 0.4)
         confs = None
-        self.refgraph_ok = True
         if irv >= 11 and self.chance(0.6):
-            self.refgraph_ok = bool(self.fix.get("ref-graph-attr-crash"))
             confs = []
             for i in range(self.r.randrange(1, 3)):
                 c = m.configuration.add()
@@ -1293,7 +1274,6 @@ def gen_cases(ck, n_models: int) -> dict[str, list[dict]]:
     """Generated cases by message kind (supported stream + mutated stream + sub-message streams)."""
     hist = ck.coverage.setdefault("features", {})
     g = Gen(ck.rng, hist)
-    g.fix = probe_fix_flags()
     by_kind: dict[str, list[dict]] = {k: [] for k in KINDS}
     import onnx
     for i in range(n_models):
@@ -1448,7 +1428,6 @@ def run(ck) -> None:
 def search(ck) -> None:
     """Violation search: the oracle over fresh supported protos (biased to the sub-message kinds) and seeds."""
     g = Gen(ck.rng, {})
-    g.fix = probe_fix_flags()
     import onnx
     budget = 600 if not ck.thorough else 6000
     for i in range(budget):
